@@ -88,6 +88,9 @@ def gen(rng, tier):
         yield f"1 0 s3b,s 100 {k + 1} 20,300 100,800 1000 {900 + 20 * k} 0 1 2 0 2"
     for _ in range(4 if quick else 40):
         yield respawn_case(rng)
+    # two pools of one group, one after the other, and a second shut_down through the first pool's stale handle
+    for _ in range(24 if quick else 400):
+        yield f"twopool {rng.choice([0, 1, 2])} {rng.choice([0, 1, 1, 2])} {rng.choice([0, 100, 100000])} {rng.randint(1, 6)}"
     for i in range(n):
         yield race_case(rng) if i % 4 == 0 else random_case(rng)
 
@@ -108,6 +111,13 @@ def split_impl(line):
 def judge(case, head, model):
     """(kind, what) for a failing run, None for a good one. kind: property | correspondence."""
     f = case.split()
+    if f[0] == "twopool":
+        # two pools of one group in sequence + a stale handle (not in the single-pool LTS: judged on the outcome alone)
+        if head == "twopool ok":
+            return None
+        if head in ("hang", "timeout"):
+            return "property", "two pools, stale handle: the scenario did not terminate (await_shutdown is stuck)"
+        return "property", "two pools, stale handle: " + head
     n_aw = int(f[10])
     if head in ("hang", "timeout"):
         return "property", "the scenario did not terminate (await_shutdown or a worker is stuck)"
@@ -232,7 +242,11 @@ def stage(tier, seed, replay):
     if impl_all and all(i == "nohooks" for i in impl_all):
         return [], [f"src/thread.rs of {qv.REPO} has no quandary_verif hooks (mod verif): the trace cannot be recorded"], {}
     heads, traces = zip(*[split_impl(i) for i in impl_all]) if impl_all else ((), ())
-    model = qv.run_sharded(exe_m, [f"{c} T {t}" for c, t in zip(cases_all, traces)], tmo)
+    lts = [i for i, c in enumerate(cases_all) if not c.startswith("twopool")]
+    lts_out = qv.run_sharded(exe_m, [f"{cases_all[i]} T {traces[i]}" for i in lts], tmo)
+    model = ["n/a (two-pool scenario: judged on its outcome)"] * len(cases_all)
+    for i, m in zip(lts, lts_out):
+        model[i] = m
     hist, nontrivial, n_events = {}, 0, 0
     for case, head, tr, m, raw in zip(cases_all, heads, traces, model, impl_all):
         if head == "skipped":
